@@ -18,6 +18,8 @@ def c10_case(draw):
                                                                     'dd_sub_mul', 'rr_sub_mul', 'dro_adaptslice_r_mul', 'dro_adaptslice_r_matmul'])),
                 'n': draw(st.integers(1, 3)), 'use': draw(st.sampled_from(['constr', 'constr', 'obj'])),
                 'front': draw(st.sampled_from(['ro', 'dro']))}
+    if draw(st.integers(0, 5)) == 0:
+        return draw(pw_case())
     n = draw(st.integers(1, 3))
     name = draw(st.sampled_from(ATOM_NAMES))
     curv, res, dom, layer = detmodel.ATOMS[name]
@@ -64,6 +66,48 @@ def c10_case(draw):
             'use': draw(st.sampled_from(['constr', 'constr', 'min', 'max'])), 'samples': samples + [x0]}
 
 
+def draw_chain(draw, n):
+    chain = []
+    for _ in range(draw(st.integers(0, 5))):
+        op = draw(st.sampled_from(['mul', 'mul', 'neg', 'add', 'sub', 'rsub']))
+        if op == 'mul':
+            chain.append(['mul', draw(st.sampled_from(SCALARS)), draw(st.sampled_from(['L', 'R']))])
+        elif op == 'neg':
+            chain.append(['neg'])
+        else:
+            if draw(st.booleans()):
+                aff = {'r': [0.0] * n, 'r0': float(draw(st.integers(-2, 2))), 'const': True, 'np': draw(st.booleans())}
+            else:
+                aff = {'r': detmodel._row(draw, n, 0.5), 'r0': float(draw(st.integers(-2, 2))), 'const': False}
+            chain.append([op, aff, draw(st.sampled_from(['L', 'R']))])
+    return chain
+
+
+@st.composite
+def pw_case(draw):
+    """piecewise maxima / minima of pieces that are affine in the decisions and in the random variables: under E() in a dro model
+    with point supports and fixed probabilities (so the expectation is a finite sum), or as a robust piecewise constraint /
+    worst-case objective over a box (ro and dro)"""
+    n, nz = draw(st.integers(1, 3)), draw(st.integers(1, 2))
+    mode = draw(st.sampled_from(['E', 'E', 'robust']))
+    npieces = draw(st.integers(2, 3))
+    pieces = [{'a': detmodel._row(draw, n), 'c': [float(draw(st.integers(-2, 2))) for _ in range(nz)], 'c0': float(draw(st.integers(-2, 2)))}
+              for _ in range(npieces)]
+    if not any(any(pc['c']) for pc in pieces):
+        pieces[0]['c'][0] = 1.0
+    S = draw(st.integers(1, 3))
+    parts = [draw(st.integers(1, 3)) for _ in range(S)]
+    rhs = {'r': detmodel._row(draw, n, 0.5) if draw(st.booleans()) else [0.0] * n, 'r0': float(draw(st.integers(-3, 3)))}
+    rhs['const'] = not any(rhs['r'])
+    return {'kind': 'pw', 'mode': mode, 'front': 'dro' if mode == 'E' else draw(st.sampled_from(['ro', 'dro'])), 'n': n, 'nz': nz,
+            'pw': draw(st.sampled_from(['maxof', 'minof'])), 'pieces': pieces, 'chain': draw_chain(draw, n),
+            'cmp': draw(st.sampled_from(['le', 'ge', 'le', 'ge', 'eq'])), 'flip': draw(st.booleans()), 'rhs': rhs,
+            'use': draw(st.sampled_from(['constr', 'constr', 'min', 'max'])), 'S': S, 'p': [v / sum(parts) for v in parts],
+            'zs': [[float(draw(st.integers(-2, 2))) for _ in range(nz)] for _ in range(S)],
+            'lo': [float(draw(st.integers(-2, 0))) for _ in range(nz)], 'hi': [float(draw(st.integers(0, 2))) for _ in range(nz)],
+            'samples': [[float(draw(st.integers(-2, 2))) + draw(st.sampled_from([0.0, 0.5])) for _ in range(n)] for _ in range(3)]}
+
+
 # ----------------------------------------------------------------------------- my curvature calculus
 def calculus(case):
     """returns (k, gcoef, gconst): expression = k*f(u) + gcoef.x + gconst"""
@@ -91,7 +135,7 @@ def calculus(case):
 def expected(case):
     """'accept' | 'reject' | 'either' for the use of the final expression"""
     k, gc, g0 = calculus(case)
-    base = detmodel.atom_curv(case['atom'])       # of f
+    base = detmodel.atom_curv(case['atom']) if case['kind'] == 'atom' else ('cvx' if case['pw'] == 'maxof' else 'ccv')   # of f
     if k == 0:
         curv = 'affine'
     else:
@@ -166,6 +210,179 @@ def use_it(case, m, x):
     m.st(c)
 
 
+# ----------------------------------------------------------------------------- piecewise of random pieces
+def pw_value(case, x, want=None):
+    """NumPy value of k*F + g and of the right-hand side at x; F is the expectation of the piecewise function (mode E) or, for
+    mode robust, its supremum / infimum over the box as `want` ('sup' | 'inf' of the whole expression) requires; None when that
+    extreme value has no closed form (never needed for a convex use)"""
+    k, gc, g0 = calculus(case)
+    agg = max if case['pw'] == 'maxof' else min
+    x = np.asarray(x, dtype=float)
+    if case['mode'] == 'E':
+        F = sum(p * agg(float(np.array(pc['a']) @ x + np.array(pc['c']) @ np.array(zs) + pc['c0']) for pc in case['pieces'])
+                for p, zs in zip(case['p'], case['zs']))
+    elif k == 0:
+        F = 0.0
+    else:
+        need_sup = (k > 0) == (want == 'sup')
+        if need_sup != (case['pw'] == 'maxof'):
+            return None, None
+        lo, hi = np.array(case['lo']), np.array(case['hi'])
+        vals = []
+        for pc in case['pieces']:
+            c = np.array(pc['c'])
+            ext = np.sum(np.maximum(c * lo, c * hi)) if need_sup else np.sum(np.minimum(c * lo, c * hi))
+            vals.append(float(np.array(pc['a']) @ x + pc['c0'] + ext))
+        F = agg(vals)
+    e = k * F + gc @ x + g0 if k != 0 else gc @ x + g0
+    return float(e), float(np.array(case['rhs']['r']) @ x + case['rhs']['r0'])
+
+
+def pw_model(case):
+    from rsome import ro, dro
+    nz = case['nz']
+    if case['front'] == 'ro':
+        m = ro.Model()
+        x, z = m.dvar(case['n']), m.rvar(nz)
+        return m, x, z, (z >= np.array(case['lo']), z <= np.array(case['hi']))
+    if case['mode'] == 'E':
+        m = dro.Model(case['S'])
+        x, z = m.dvar(case['n']), m.rvar(nz)
+        fs = m.ambiguity()
+        for s in range(case['S']):
+            fs[s].suppset(z == np.array(case['zs'][s]))
+        fs.probset(m.p == np.array(case['p']))
+        return m, x, z, fs
+    m = dro.Model()
+    x, z = m.dvar(case['n']), m.rvar(nz)
+    fs = m.ambiguity()
+    fs.suppset(z >= np.array(case['lo']), z <= np.array(case['hi']))
+    return m, x, z, fs
+
+
+def pw_use(case, m, x, z, zset):
+    import rsome as rso
+    from rsome import E
+    # a piece without random coefficients is written without a random term (every other piece) or with an explicit 0*z
+    pcs = [np.array(pc['a']) @ x + np.array(pc['c']) @ z + pc['c0'] if any(pc['c']) or i % 2 else np.array(pc['a']) @ x + pc['c0']
+           for i, pc in enumerate(case['pieces'])]
+    e = (rso.maxof if case['pw'] == 'maxof' else rso.minof)(*pcs)
+    if case['mode'] == 'E':
+        e = E(e)
+
+    def aff(a):
+        if a.get('const'):
+            return np.float64(a['r0']) if a.get('np') else a['r0']
+        return np.array(a['r']) @ x + a['r0']
+    for step in case['chain']:
+        op = step[0]
+        if op == 'mul':
+            e = step[1] * e if step[2] == 'L' else e * step[1]
+        elif op == 'neg':
+            e = -e
+        elif op == 'add':
+            e = aff(step[1]) + e if step[2] == 'L' else e + aff(step[1])
+        elif op == 'sub':
+            e = e - aff(step[1])
+        else:
+            e = aff(step[1]) - e
+    rhs = aff(case['rhs'])
+    if case['use'] in ('min', 'max'):
+        if case['front'] == 'ro':
+            (m.minmax if case['use'] == 'min' else m.maxmin)(e, zset)
+        else:
+            (m.minsup if case['use'] == 'min' else m.maxinf)(e, zset)
+        return
+    cmp_, flip = case['cmp'], case['flip']
+    if cmp_ == 'le':
+        c = (rhs >= e) if flip else (e <= rhs)
+    elif cmp_ == 'ge':
+        c = (rhs <= e) if flip else (e >= rhs)
+    else:
+        c = (rhs == e) if flip else (e == rhs)
+    if case['mode'] == 'robust' and hasattr(c, 'forall'):      # (a comparison may also return a plain bool or a deterministic constraint)
+        c = c.forall(zset)
+    # a harmless objective (for an expectation constraint it also provides the ambiguity set)
+    if case['front'] == 'dro':
+        m.minsup(x[0] * 1.0, zset)
+    else:
+        m.min(x[0] * 1.0)
+    m.st(c)
+
+
+def pw_check(case):
+    exp = expected(case)
+    k, gc, g0 = calculus(case)
+    signchange = sum(1 for s in case['chain'] if s[0] in ('neg', 'rsub') or (s[0] == 'mul' and s[1] < 0))
+    labels = ['pw:%s:%s' % (case['mode'], case['pw']), 'front:' + case['front'], 'use:' + case['use'], 'expected:' + exp,
+              'steps:%d' % len(case['chain'])] + (['k=0'] if k == 0 else [])
+    if case['use'] == 'constr':
+        labels.append('cmp:' + case['cmp'] + ('_flipped' if case['flip'] else ''))
+    nt = len(case['chain']) >= 1 and signchange > 0
+    tag = 'E' + case['pw'] if case['mode'] == 'E' else 'robust_' + case['pw']
+    m, x, z, zset = pw_model(case)
+    try:
+        with quiet():
+            pw_use(case, m, x, z, zset)
+        raised = None
+    except Exception as ex:
+        raised = ex
+    if exp == 'reject':
+        if raised is None:
+            return Outcome.fail('unsound_accept:%s:%s' % (tag, case['use'] if case['use'] != 'constr' else case['cmp']),
+                                'non-convex use accepted: %s*%s(...)+affine used as %s' % (k, tag, case['use'] + ' ' + case['cmp']), labels)
+        return Outcome.ok(nt, labels + ['rejected:' + type(raised).__name__])
+    if raised is not None:
+        if exp == 'accept':
+            labels.append('over_rejected:%s:%s' % (tag, type(raised).__name__))
+        return Outcome.ok(False, labels)
+    checked = 0
+    for xs in case['samples']:
+        xs = np.array(xs)
+        want = 'sup' if (case['use'] == 'min' or (case['use'] == 'constr' and case['cmp'] == 'le')) else 'inf'
+        e, rhs = pw_value(case, xs, want)
+        if e is None:
+            continue
+        m2, x2, z2, zset2 = pw_model(case)
+        try:
+            with quiet():
+                m2.st(x2 == xs)
+                pw_use(case, m2, x2, z2, zset2)
+                m2.solve(display=False)
+        except Exception as ex:
+            return Outcome.fail('accepted_then_crashed:%s:%s' % (tag, type(ex).__name__),
+                                'accepted expression crashed when compiled/solved: %r' % (ex,), labels)
+        sol = m2.solution
+        stt = str(getattr(sol, 'status', None))
+        feas = sol is not None and sol.x is not None and not np.isnan(sol.objval)
+        infeas = stt == '2'
+        if not feas and not infeas:
+            continue
+        if case['use'] in ('min', 'max'):
+            if feas:
+                got = m2.get()
+                if abs(got - e) > 1e-6 * (1 + abs(e)):
+                    return Outcome.fail('objective_meaning:%s' % tag, 'objective evaluates to %.8g at pinned x=%s but model.get()=%.8g' % (e, xs.tolist(), got), labels)
+                checked += 1
+            else:
+                return Outcome.fail('objective_meaning:%s' % tag, 'a model with pinned x and this objective is reported infeasible', labels)
+            continue
+        if case['cmp'] == 'eq':
+            continue
+        diff = e - rhs
+        if abs(diff) < 0.05:
+            continue
+        truth = (diff <= 0) if case['cmp'] == 'le' else (diff >= 0)
+        if truth != feas:
+            return Outcome.fail('constraint_meaning:%s' % tag,
+                                'written inequality is %s at x=%s (lhs %.6g, rhs %.6g) but the compiled model is %s' % (
+                                    truth, xs.tolist(), e, rhs, 'feasible' if feas else 'infeasible'), labels)
+        checked += 1
+    if checked:
+        labels.append('semantic_checked')
+    return Outcome.ok(nt and checked > 0, labels)
+
+
 def new_model(case):
     from rsome import ro, dro
     m = ro.Model() if case['front'] == 'ro' else dro.Model()
@@ -224,14 +441,16 @@ def bilinear(case):
 
 class C10(Prop):
     id = 'C10'
-    rule = ('atom (every convex/concave atom incl. perspectives, piecewise max/min, summed exp/log; ro and dro) x a chain of 0-5 '
+    rule = ('atom (every convex/concave atom incl. perspectives, piecewise max/min, summed exp/log; ro and dro; one case in six: maxof/minof of '
+            'pieces affine in decisions and random variables, under E() in a dro model with point supports and fixed probabilities, or as '
+            'a robust piecewise constraint / worst-case objective over a box in ro and dro) x a chain of 0-5 '
             'steps from {scale by 2, 0.5, -1, -3, 0, 3 from the left or right; negate; add / subtract a constant (Python or NumPy '
             'scalar) or an affine expression from the left or right; reversed subtraction} x comparison (<=, >=, == with the other '
             'side on either side) or use as min/max objective; plus bilinear products (decision x decision, random x random, LDR x '
             'random, affinely adaptive dro decision x random). Oracle: an independent curvature calculus over k*f + g gives the '
             'expected accept/reject; expected reject => RSOME must raise by the time st()/min()/max() returns; accepted => the '
             'compiled model with the variables pinned at sample points must be feasible exactly when the written inequality holds '
-            'under NumPy (margin 0.05), and an accepted objective must evaluate to the NumPy value. Over-rejection is counted, not '
+            'under NumPy (margin 0.05; for random pieces: the finite-sum expectation, or the closed-form sup/inf over the box), and an accepted objective must evaluate to the NumPy value. Over-rejection is counted, not '
             'a violation. Non-trivial = chain of >= 2 steps containing a sign change (negative scale, negation or reversed '
             'subtraction), or a bilinear case; distinct by IR hash.')
     assumptions = ['feasibility of pinned models decided by HiGHS (LP) or ECOS (statuses Optimal / Primal infeasible; anything else is inconclusive)',
@@ -252,6 +471,8 @@ class C10(Prop):
             except Exception as ex:
                 return Outcome.ok(True, labels + ['raised:' + type(ex).__name__])
             return Outcome.fail('bilinear_accepted:' + case['which'], 'a bilinear product (%s) was accepted as %s' % (case['which'], case['use']), labels)
+        if case['kind'] == 'pw':
+            return pw_check(case)
         exp = expected(case)
         a = case['atom']
         k, gc, g0 = calculus(case)
